@@ -94,3 +94,18 @@ package nodeutil
 //@   requires wtr != nil && item != nil && fmtOfV(item) != val.FmtAny
 //@   callsite WriteString: dyn(item) == val.NotEmptyType ==> arg0 == "[null]"
 //@   callsite WriteString: dyn(item) != val.String && dyn(item) != val.Binary && dyn(item) != val.Bits && dyn(item) != val.IdentRef
+
+// ---- C04 / C15: module-qualified member names — the reader looks a member up under the module the writer uses -------
+// (RFC 7951: the module that defines the node, not the module at the root of the tree)
+//@ func fqkGet(m meta.Definition, container map[string]interface{}) (interface{}, bool)
+//@   mode int
+//@   property C04 C15
+//@   maypanic
+//@   requires m != nil
+//@   check [definingModule] mod == nil || mod == origModOf(m)
+//@ func (wtr *JSONWtr) ident(p *node.Path) string
+//@   mode int
+//@   property C15 C04
+//@   maypanic
+//@   requires wtr != nil && p != nil
+//@   check [definingModule] thisMod == origModOf(p.Meta)
